@@ -50,10 +50,10 @@ PROPS = {
     "C03": dict(units=["u6_store", "u7_glue", "u19_async", "u10_valueref"], kani=["ttl"], replay=["ttl", "async_sweep"]),
     "C04": dict(units=["u6_store", "u4_policy", "u7_glue", "u19_async", "u19_async_policy", "u8_builder", "u8_builder_async"], kani=["ttl", "keys"], replay=["ttl", "async_sweep", "policy", "cache", "async_cache"]),
     "C05": dict(units=["u6_store", "u4_policy", "u8_builder", "u19_async_policy", "u8_builder_async"], kani=["ttl"], replay=["ttl", "async_sweep", "cache"]),
-    "C09": dict(units=["u6_store", "u7_glue", "u19_async", "u8_builder", "u8_builder_async"], kani=["keys"], replay=["ttl", "async_sweep", "cache", "async_cache"]),
+    "C09": dict(units=["u6_store", "u7_glue", "u19_async", "u8_builder", "u8_builder_async", "u4_policy", "u19_async_policy"], kani=["keys"], replay=["ttl", "async_sweep", "cache", "async_cache"]),
     "C18": dict(units=["u6_store", "u7_glue", "u19_async", "u8_builder", "u8_builder_async"], kani=["keys"], replay=["ttl", "async_sweep", "cache", "async_cache"]),
     "C06": dict(units=["u7_glue", "u6_store", "u4_policy", "u19_async", "u19_async_policy"], kani=["keys"], replay=["ttl", "async_sweep", "policy", "cache", "async_cache"]),
-    "C08": dict(units=["u7_glue", "u6_store", "u19_async", "u8_builder", "u8_builder_async"], kani=[], replay=["ttl", "async_sweep", "cache", "async_cache"]),
+    "C08": dict(units=["u7_glue", "u6_store", "u19_async", "u8_builder", "u8_builder_async", "u5_ttl"], kani=["ttl"], replay=["ttl", "async_sweep", "cache", "async_cache"]),
     "C11": dict(units=["u7_glue", "u6_store", "u4_policy", "u1_estimator", "u19_async", "u19_async_policy", "u9_metrics", "u8_builder", "u8_builder_async"], kani=["histogram", "sketch"], replay=["ttl", "async_sweep", "estimator", "cache", "async_cache", "policy"],
                 probes=[("cache", "insert_after_clear_is_kept")]),
     "C15": dict(units=["u7_glue", "u1_estimator", "u8_builder", "u19_async", "u8_builder_async", "u9_metrics"], kani=["sketch"], replay=["estimator", "cache"]),
@@ -76,7 +76,11 @@ ASSUMPTIONS = {
 # down.  C16 fixes what every entry is charged; C01 (total <= max_cost), C07 (room / eviction decisions) and C04 (nothing lost while
 # everything fits) are statements over exactly those charges.
 IMPLIES = {
-    "C16": ("C01", "C07", "C04"),
+    "C16": ("C01", "C07", "C04", "C09"),
+    # C09: a conditional write on a resident key "behaves as an update of value and cost" - the cost half is what C16 pins down.
+    # C05 -> C08: an expired entry that is never reclaimed is a value that is neither served nor handed to a callback; every clause
+    # that reclamation rests on (bucket numbering, listings, the sweeps) therefore also serves "resident xor exactly one callback".
+    "C05": ("C08",),
 }
 
 # The safety obligation of a function under contract (no arithmetic overflow, no index out of bounds, no failed callee precondition,
